@@ -90,6 +90,12 @@ func FlushFromOverrideDefaultNI(c *fluent.GRIBIClient, wantACK fluent.Programmin
 // default NI using the Get RPC.
 func FlushFromNonMasterDefaultNI(c *fluent.GRIBIClient, wantACK fluent.ProgrammingResult, t testing.TB, _ ...TestOpt) {
 	defer flushServer(c, t)
+	// The Flush below carries the election ID one lower than the ID that programs the
+	// entries. Zero is not a valid election ID, so when this is the first test to run
+	// (the election ID is still at its initial value of 1) start from 2.
+	if electionID.Load() < 2 {
+		electionID.Store(2)
+	}
 	addFlushEntriesToNI(c, defaultNetworkInstanceName, wantACK, t)
 
 	// addFlushEntriesToNI increments the election ID so to check with the current value,
